@@ -31,25 +31,28 @@ struct Plain {
     int v;
     Plain() : v(0) { }
     explicit(false) Plain(int x) : v(x) { }
-    Plain(Plain const& o)
+    Plain(Plain const& o) noexcept(F == mc::rule3)
         requires(F != mc::move_only)
         : v(o.v)
     {
     }
     Plain(Plain&& o) noexcept
-        requires(F != mc::copy_only)
+        requires(F != mc::copy_only && F != mc::rule3)
         : v(o.v)
     {
         if (this != &o) { o.v = -1; }
     }
     auto operator=(Plain const& o) -> Plain&
-        requires(F != mc::move_only)
+        requires(F == mc::rule3)
+    = default;
+    auto operator=(Plain const& o) -> Plain&
+        requires(F != mc::move_only && F != mc::rule3)
     {
         v = o.v;
         return *this;
     }
     auto operator=(Plain&& o) noexcept -> Plain&
-        requires(F != mc::copy_only)
+        requires(F != mc::copy_only && F != mc::rule3)
     {
         if (this != &o) {
             v   = o.v;
@@ -161,6 +164,10 @@ std::string aname()
         return "TrackedMoveOnly";
     } else if constexpr (std::is_same_v<A, mc::Tracked<mc::copy_only, 0>> || std::is_same_v<A, Plain<mc::copy_only, 0>>) {
         return "TrackedCopyOnly";
+    } else if constexpr (std::is_same_v<A, mc::Tracked<mc::rule3, 0>> || std::is_same_v<A, Plain<mc::rule3, 0>>) {
+        return "TrackedRule3";
+    } else if constexpr (std::is_same_v<A, mc::Tracked<mc::rule3, 1>> || std::is_same_v<A, Plain<mc::rule3, 1>>) {
+        return "TrackedRule3B";
     } else {
         return "?";
     }
